@@ -353,4 +353,34 @@ def curve_direction(repo: Repo) -> RuleRun:
 
 curve_direction.rule_id = "C07.CURVE-DIRECTION"
 
-RULES = [kind_registry, dedup, direction, reversal, face_edge_slots, curve_direction]
+def edge_slots(repo: Repo) -> RuleRun:
+    """A projected / curved edge given for one corner pair is stored in, and read back from, that pair's slot (top edges from the top face). Same rule as C10.EDGE-MAP."""
+    from ..report import rebrand
+    from . import c10
+
+    return rebrand(c10.edge_map_rule(repo), PROP, "C07.EDGE-SLOTS")
+
+
+edge_slots.rule_id = "C07.EDGE-SLOTS"
+
+def length_direction(repo: Repo) -> RuleRun:
+    """'the edge length used for grading is that the user described': the length of an interpolated curve between two parameters handles descending ranges. Same rule as C16.KNOT-DEPENDENCE."""
+    from ..report import rebrand
+    from . import c16
+
+    return rebrand(c16.knot_dependence(repo), PROP, "C07.LENGTH-DIRECTION")
+
+
+length_direction.rule_id = "C07.LENGTH-DIRECTION"
+
+def arc_side(repo: Repo) -> RuleRun:
+    """'the sense of angle-and-axis arcs': the sign of the sector angle reaches the arc centre. Same rule as C08.SIGN-FLOWS."""
+    from ..report import rebrand
+    from . import c08
+
+    return rebrand(c08.sign_flows(repo), PROP, "C07.ARC-SIDE")
+
+
+arc_side.rule_id = "C07.ARC-SIDE"
+
+RULES = [kind_registry, dedup, direction, reversal, face_edge_slots, curve_direction, edge_slots, length_direction, arc_side]
